@@ -373,10 +373,15 @@ pub fn check_trace(log: &[Event], expect_ok: bool) -> (TraceSummary, Vec<(String
                 if e.b >= 16 {
                     s.hash_queue_full_seen = true;
                 }
-                if hash_stop_sent {
-                    v.push(("T4".into(), format!("block sent to hasher after the stop marker (seq {})", e.seq)));
+                if e.a == 0 {
+                    // an empty block (the source's final empty read) is itself the stop marker
+                    hash_stop_sent = true;
+                } else {
+                    if hash_stop_sent {
+                        v.push(("T4".into(), format!("block sent to hasher after the stop marker (seq {})", e.seq)));
+                    }
+                    hash_sent.push(e.a);
                 }
-                hash_sent.push(e.a);
             }
             "ctx.hash.stop" => {
                 hash_stop_sent = true;
